@@ -18,7 +18,17 @@ pub const TEXTS: &[&str] = &[
     "Again thw, ŁÓDŹx, tset; then naïvité left O'Brienx there there.",
     "Tset is here, teh thing. TSET too.",
     "The tset and Tset met thw; naïvité and ŁÓDŹx in an hour.",
+    // the same content twice: index 9 is opened with the OTHER language id (see `lang_for`)
+    "Some `cde` here and teh *end*.",
+    "Some `cde` here and teh *end*.",
 ];
+
+/// The language id the editor sends when it opens document `d` with text `t`: document 0 is a
+/// Markdown file, document 1 a plain-text buffer — except that text 9 is opened as Markdown (the
+/// user switched the buffer's file type), so close + reopen can change a document's language.
+pub fn lang_for(d: usize, t: usize) -> &'static str {
+    if d == 0 || t == 9 { "markdown" } else { "plaintext" }
+}
 
 #[derive(Clone, Debug, PartialEq)]
 pub enum Op {
@@ -284,6 +294,7 @@ impl Session {
                 let doc = &mut self.client.docs[*d];
                 doc.open = true;
                 doc.ever_opened = true;
+                doc.lang = lang_for(*d, *t);
                 doc.text = TEXTS[*t].to_string();
                 let req = Server::notification("textDocument/didOpen", json!({"textDocument": {"uri": uri, "languageId": doc.lang, "version": 1, "text": doc.text}}));
                 self.server.enqueue(&label, req);
@@ -403,6 +414,8 @@ pub fn ops() -> Vec<Op> {
         Op::Open(0, 0),
         Op::Open(1, 1),
         Op::Open(1, 6),
+        Op::Open(1, 8),
+        Op::Open(1, 9),
         Op::Change(0, 1),
         Op::Change(0, 2),
         Op::Change(1, 0),
@@ -570,8 +583,10 @@ fn f16_explains_narrow(pre: &Client, post: &Client, batch: &[Op], d: usize, publ
         for w in &wordsets {
             for cfg in [pre.config, post.config] {
                 for ig in ignored_options {
-                    if &ref_diag_ignoring(t, post.docs[d].lang, w, cfg, ig) == p {
-                        return true;
+                    for lang in [pre.docs[d].lang, post.docs[d].lang] {
+                        if &ref_diag_ignoring(t, lang, w, cfg, ig) == p {
+                            return true;
+                        }
                     }
                 }
             }
@@ -617,8 +632,10 @@ fn f16_explains(pre: &Client, post: &Client, batch: &[Op], d: usize, published: 
     for t in &texts {
         for w in &wordsets {
             for cfg in [pre.config, post.config] {
-                if &ref_diag(t, post.docs[d].lang, w, cfg) == p {
-                    return true;
+                for lang in [pre.docs[d].lang, post.docs[d].lang] {
+                    if &ref_diag(t, lang, w, cfg) == p {
+                        return true;
+                    }
                 }
             }
         }
@@ -895,6 +912,7 @@ pub fn model_only(c: &mut Client, op: &Op) {
         Op::Open(d, t) => {
             c.docs[*d].open = true;
             c.docs[*d].ever_opened = true;
+            c.docs[*d].lang = lang_for(*d, *t);
             c.docs[*d].text = TEXTS[*t].to_string();
         }
         Op::Change(d, t) => c.docs[*d].text = TEXTS[*t].to_string(),
